@@ -72,6 +72,15 @@ def render_wide(shape, n):
         args = ["string", "number", "boolean", "null", '"a"', "1", "string[]", "{ z: 1 }"][:n + 2]
         body += "type T = { " + "; ".join(f"g{i}: G<{a}, string>; h{i}: G<{a}, {args[(i + 1) % len(args)]}>" for i, a in enumerate(args)) + " };\n"
         roots = ["T"]
+    elif shape == "twindocs":
+        names = ["Alpha", "Bravo", "Carol", "Delta", "Eagle", "Fargo"][:max(2, min(n, 6))]
+        files = []
+        for nm in names:
+            files.append((nm.lower() + ".ts", f"/** {nm} id */\nexport type {nm} = {{\n  /** {nm} key */\n  key: string;\n}};\n"))
+        entry = "".join(f'import {{ {nm} }} from "./{nm.lower()}";\n' for nm in names)
+        entry += "type T = { " + "; ".join(f"{nm.lower()}: {nm}" for nm in names) + " };\n"
+        entry += "parse.buildParsers<{ T: T, " + ", ".join(f"{nm}: {nm}" for nm in names) + " }>();\n"
+        return files + [("entry.ts", entry)]
     else:  # intersections
         body = "".join(f"type B{i} = {{ b{i}: number; shared: {' | '.join(repr(chr(97 + j)) for j in range(i, n + 1))} }};\n".replace("'", '"') for i in range(n))
         body += "type T = " + " & ".join(f"B{i}" for i in range(n)) + ";\ntype U = " + " | ".join(f"(B{i} & {{ t: \"{i}\" }})" for i in range(n)) + ";\n"
